@@ -22,6 +22,11 @@ func (a *A) C07() {
 	a.mapIterationDeterminism()
 	a.firstPacketIdentity()
 	a.filtersFirst()
+	// duplicates and discontinuities are judged against the queue of the packet's own PID (the S5 rules of C06): a test
+	// against pool-wide state makes the outcome depend on the packets of other PIDs that happen to lie in between
+	a.dupEdge()
+	a.discOnLoadedQueue()
+	a.discTestUnconditional()
 	// a unit of one PID that fails to parse at the end of the stream must not keep the pending units of the other PIDs
 	// from being delivered: the drain rule of C02 (every dumped group is parsed, the end is reported only after an
 	// empty dump)
